@@ -443,7 +443,10 @@ func (sp *StakePool) DistributeRewardsRandN(
 		spUpdate.Reward = reward
 	}
 
-	valueLeft := value - serviceCharge
+	valueLeft, err := currency.MinusCoin(value, serviceCharge)
+	if err != nil {
+		return err
+	}
 	if valueLeft == 0 {
 		if err := spUpdate.Emit(event.TagStakePoolReward, balances); err != nil {
 			return err
@@ -624,7 +627,10 @@ func (sp *StakePool) DistributeRewards(
 		spUpdate.Reward = reward
 	}
 
-	valueLeft := value - serviceCharge
+	valueLeft, err := currency.MinusCoin(value, serviceCharge)
+	if err != nil {
+		return err
+	}
 	if valueLeft == 0 {
 		if err := spUpdate.Emit(event.TagStakePoolReward, balances); err != nil {
 			return err
